@@ -6,6 +6,7 @@
 import Nervus.Proofs.CsrIncoming
 import Nervus.Model.Bulk
 import Nervus.Proofs.BulkTx
+import Nervus.Proofs.BulkInterner
 import Nervus.Props.C06
 namespace Nervus.Props.C30
 open Nervus Nervus.Storage
@@ -15,10 +16,11 @@ theorem csr_guard_present : Cfg.current.csrGuard = true := by decide
 
 /-- **C30 at full strength**: for every valid node / relationship set, the bulk-loaded database
     and the database that committed the same data through a transaction give the same dump through
-    every read interface, relationship lists compared as lists of (src, type ID, dst).  Proved up to the
-    numbering of the label table: `bulk_eq_tx` shows that both databases agree in every read with the same
-    property graph (labels and relationship types by NAME); that the two label tables also assign the same
-    ids is not proved.  The one difference found on the pinned tree — whole-map property reads when two parallel bulk
+    every read interface, relationship lists compared as lists of (src, type ID, dst).  Proved for the
+    live part of the id space: `bulk_eq_tx` (both databases agree in every read with the same property
+    graph), `bulk_eq_tx_nodes`, `bulk_eq_tx_edges` (same label table, same relationship lists with ids).
+    Not proved as stated: the clauses of this `def` also quantify over node ids that do not exist and over
+    type ids that were never interned.  The one difference found on the pinned tree — whole-map property reads when two parallel bulk
     relationships carry the same property key (`C30_counterexample_parallel_edge_key`) — is fixed. -/
 def C30_full : Prop :=
   ∀ (ns : List BulkNode) (es : List BulkEdge), bulkValid ns es = true →
@@ -115,6 +117,67 @@ theorem bulk_eq_tx_nodes (ns : List BulkNode) (es : List BulkEdge) (hok : bulkOK
     have hx : GraphSpec.extOfDeleted (GraphSpec.run [.tx (txLoad ns es) true]) x = false := by
       unfold GraphSpec.extOfDeleted; rw [hdead]; simp
     exact (rb.extLookup x hx).trans (rt.extLookup x hx).symm
+
+/-- `bulk_eq_tx` for the relationship reads, literally: the two databases have the SAME label table
+    (`txLoad_interner`: same names, same ids), and from every node, under no type filter or under any
+    interned type id, `neighbors` and `incoming_neighbors` return the same relationships — same (src, type
+    id, dst) triples with the same multiplicities — on both. -/
+theorem bulk_eq_tx_edges (ns : List BulkNode) (es : List BulkEdge) (hok : bulkOK ns es = true)
+    (hsz : (txLoad ns es).length ≤ labelMax) :
+    ∃ d b t, bulkLoad ns es = some d ∧ Engine.open d = .ok b ∧
+      Storage.run Cfg.current [.tx (txLoad ns es) true] = .ok t ∧ b.interner = t.interner ∧
+      ∀ n ∈ b.nodes, ∀ rel : Option Nat, (rel = none ∨ ∃ r nm, rel = some r ∧ b.interner[r]? = some nm) →
+        (∃ l l', b.neighbors n rel = some l ∧ t.neighbors n rel = some l' ∧ l.Perm l') ∧
+        (∃ l l', b.incoming Cfg.current n rel = some l ∧ t.incoming Cfg.current n rel = some l' ∧ l.Perm l') := by
+  obtain ⟨hv, _, _, _⟩ := bulkOK_unpack ns es hok
+  obtain ⟨d, hd, hopen, hi2e⟩ := bulk_open ns es hv
+  obtain ⟨d', b, t, h1, h2, h3, rb, rt⟩ := bulk_eq_tx ns es hok hsz
+  have hdd : d' = d := by rw [hd] at h1; cases h1; rfl
+  subst hdd
+  have hbE : b = bulkEngine ns es d' := by rw [hopen] at h2; cases h2; rfl
+  have hint : b.interner = t.interner := by
+    have ht : t = runTx Cfg.current {} (txLoad ns es) true := by
+      have : Storage.run Cfg.current [.tx (txLoad ns es) true] = .ok (runTx Cfg.current {} (txLoad ns es) true) := rfl
+      rw [this] at h3; cases h3; rfl
+    rw [ht, txLoad_interner, hbE]; rfl
+  refine ⟨d', b, t, hd, h2, h3, hint, ?_⟩
+  intro n hn rel hrel
+  have hl : (GraphSpec.run [.tx (txLoad ns es) true]).live n = true := by
+    rw [← mem_nodes_iff_live, ← rb.nodes]; exact hn
+  -- the Spec-side name of the filter
+  obtain ⟨tt, hmb, hmt⟩ : ∃ tt, RelMatch b rel tt ∧ RelMatch t rel tt := by
+    rcases hrel with rfl | ⟨r, nm, rfl, hr⟩
+    · exact ⟨none, Or.inl ⟨rfl, rfl⟩, Or.inl ⟨rfl, rfl⟩⟩
+    · exact ⟨some nm, Or.inr ⟨r, nm, rfl, rfl, hr⟩, Or.inr ⟨r, nm, rfl, rfl, by rw [← hint]; exact hr⟩⟩
+  have key : ∀ (l l' : List Edge) (cnt : Nat → Nat → Nat → Nat → Nat),
+      (∀ e ∈ l, ∃ nm, b.interner[e.rel]? = some nm) → (∀ e ∈ l', ∃ nm, t.interner[e.rel]? = some nm) →
+      (∀ r nm a c, b.interner[r]? = some nm → l.count ⟨a, r, c⟩ = cnt r nm a c) →
+      (∀ r nm a c, t.interner[r]? = some nm → l'.count ⟨a, r, c⟩ = cnt r nm a c) → l.Perm l' := by
+    intro l l' cnt m1 m2 c1 c2
+    rw [List.perm_iff_count]
+    intro e
+    cases hq : b.interner[e.rel]? with
+    | some nm =>
+      have e1 := c1 e.rel nm e.src e.dst hq
+      have e2 := c2 e.rel nm e.src e.dst (by rw [← hint]; exact hq)
+      show l.count e = l'.count e
+      have : (⟨e.src, e.rel, e.dst⟩ : Edge) = e := rfl
+      rw [this] at e1 e2
+      rw [e1, e2]
+    | none =>
+      have n1 : l.count e = 0 := List.count_eq_zero.mpr (fun hm => by obtain ⟨nm, h⟩ := m1 e hm; rw [hq] at h; cases h)
+      have n2 : l'.count e = 0 := List.count_eq_zero.mpr (fun hm => by
+        obtain ⟨nm, h⟩ := m2 e hm; rw [← hint, hq] at h; cases h)
+      rw [n1, n2]
+  constructor
+  · obtain ⟨l, a1, a2, a3⟩ := rb.out n rel tt hl hmb
+    obtain ⟨l', b1, b2, b3⟩ := rt.out n rel tt hl hmt
+    exact ⟨l, l', a1, b1, key l l' (fun r nm a c => ((GraphSpec.run [.tx (txLoad ns es) true]).out n tt).count ⟨a, nm, c⟩)
+      a2 b2 a3 b3⟩
+  · obtain ⟨l, a1, a2, a3⟩ := rb.inc n rel tt hl hmb
+    obtain ⟨l', b1, b2, b3⟩ := rt.inc n rel tt hl hmt
+    exact ⟨l, l', a1, b1, key l l' (fun r nm a c => ((GraphSpec.run [.tx (txLoad ns es) true]).inc n tt).count ⟨a, nm, c⟩)
+      a2 b2 a3 b3⟩
 
 /-! ### non-vacuity and a worked equality (labels shared between nodes and types, parallel
     relationships, a self loop, properties of several kinds) -/
